@@ -287,6 +287,43 @@ class A(Adapter):
             return "all_connected_or_blocked"
         return None
 
+    # ---- reach probes ----------------------------------------------------------------------------------
+    def events(self, ps, action, s, ts, env, cfg):
+        g1, p1, t1 = self._raw(s)
+        conn1, blk1 = self._finished(g1, p1, t1)
+        if ps is None:
+            near = bool((np.abs(p1 - t1).sum(axis=1) == 1).any())
+            return ((["reset_multi_agent"] if len(p1) > 1 else ["reset_single_agent"]) + (["reset_agent_blocked"] if (blk1 & ~conn1).any() else [])
+                    + (["reset_head_adjacent_to_target"] if near else []))
+        g0, p0, t0 = self._raw(ps)
+        legal = self._legal_raw(g0, p0, t0)
+        conn0, blk0 = self._finished(g0, p0, t0)
+        ev = []
+        claims: Dict[Tuple[int, int], List[int]] = {}
+        for i in range(len(p0)):
+            a = int(action[i])
+            if a == 0:
+                continue
+            if not legal[i, a]:
+                ev.append("move_by_connected_agent_ignored" if conn0[i] else "illegal_move_ignored")
+                continue
+            claims.setdefault((int(p0[i, 0]) + DELTA[a][0], int(p0[i, 1]) + DELTA[a][1]), []).append(i)
+        for ids in claims.values():
+            if len(ids) >= 2:
+                ev.append("contention_2way" if len(ids) == 2 else "contention_3way_or_more")
+        movers = sum(len(ids) for ids in claims.values())
+        ev.append("no_agent_moves" if movers == 0 else "agents_moving_simultaneously_ge2" if movers >= 2 else "one_agent_moves")
+        newc = int((conn1 & ~conn0).sum())
+        if newc:
+            ev.append("agent_connected")
+            if newc >= 2:
+                ev.append("two_agents_connected_in_one_step")
+        if ((blk1 & ~conn1) & ~(blk0 & ~conn0)).any():
+            ev.append("agent_became_blocked")
+        if (conn1 | blk1).all():
+            ev.append("end_all_connected" if conn1.all() else "end_all_blocked_none_connected" if not conn1.any() else "end_some_connected_rest_blocked")
+        return ev
+
     # ---- C12 -----------------------------------------------------------------------------------------
     def observe(self, s, obs, env, cfg):
         # docs/environments/connector.md and the observation spec: one (grid_size, grid_size) grid shared by all agents
